@@ -70,8 +70,8 @@ def register(reg):
                   'self.line_number_offset == line_number_offset and '
                   'self.first_line_column_offset == first_line_column_offset and '
                   'self.column_offset == column_offset')] + lines('self._pos_new_lines', 's'),
-        modifies=['self.line_number_offset', 'self.first_line_column_offset', 'self.column_offset',
-                  'self._pos_new_lines'],
+        modifies=[('self.line_number_offset', 'int'), ('self.first_line_column_offset', 'int'),
+                  ('self.column_offset', 'int'), ('self._pos_new_lines', 'intlist')],
         replay='util_lines',
     ))
     units['LineNumbersCalculator.__init__'] = FunctionUnit(c_init)
@@ -98,8 +98,19 @@ def register(reg):
     CN = "(result['colno'] if as_dict else result[1])"
     I = '(%s - self.line_number_offset)' % LN
     COL = '(%s - (self.first_line_column_offset if %s == 0 else self.column_offset))' % (CN, I)
+    def make_p2l_result(it, env):
+        v = env.vars
+        if v['pos'] is None:
+            ln, cn = None, None
+        else:
+            ln, cn = it.ctx.fresh_int('lineno'), it.ctx.fresh_int('colno')
+        if it.ctx.branch(it.truth_term(v['as_dict'])):
+            from pyvc.values import PyDict
+            return PyDict({'lineno': ln, 'colno': cn})
+        return (ln, cn)
+
     c_p2l = reg.add(Contract(
-        LNC + '.pos_to_lineno_colno', setup=setup_p2l,
+        LNC + '.pos_to_lineno_colno', setup=setup_p2l, result_make=make_p2l_result,
         requires=[('table-invariant', 'len(self._pos_new_lines) >= 1 and self._pos_new_lines[0] == 0'),
                   ('table-increasing',
                    'forall(0, len(self._pos_new_lines) - 1, lambda i: self._pos_new_lines[i] < self._pos_new_lines[i+1])'),
